@@ -50,9 +50,11 @@ def _min_dtype_for_encoding(data_encoding: encodings.DataEncoding):
     elif isinstance(data_encoding, encodings.FloatDataEncoding):
         nbits = data_encoding.size_in_bits
         datatype = "float"
-        if nbits == 32:
+        if nbits == 32 and data_encoding.encoding != "MILSTD_1750A":
             datatype += "32"
         else:
+            # MIL-STD-1750A 32-bit floats have a wider exponent range (2**-128 to 2**127 times a 24 bit mantissa)
+            # than IEEE binary32, so they need a float64 to be stored without rounding
             datatype += "64"
     elif isinstance(data_encoding, encodings.BinaryDataEncoding):
         datatype = "bytes"
